@@ -896,6 +896,11 @@ def gen_vmapop(ctx, op):
                 u = ctx.pick(shared)
             elif r == 4:
                 u = ("leaf", ctx.new_num(ctx.draw(st.sampled_from(LENS))), True)
+                if ctx.b(0.6):
+                    # two numeric axes side by side: they occur nowhere else, so anything that fuses "[4 4]" into one axis
+                    # changes the signature of the adapted function
+                    brs.append(u)
+                    u = ("leaf", ctx.new_num(ctx.draw(st.sampled_from(LENS))), True)
             elif r == 5 and not output:
                 u = ("fam", ctx.new_family(k=ctx.draw(st.sampled_from([1, 2]))), True, "plain")
                 shared.append(u)
